@@ -95,6 +95,7 @@ def run(tier, seed):
                 ("pin_salt", 4096 * mult // threads if pi == 0 else 1024, {}),
                 ("mc_seed", 4096 * mult // threads if pi == 0 else 1024, {}),
                 ("mixed", 400 * mult if pi == 0 else 400, {"mixseed": 1 + pi}),
+                ("seeds_mixed", 50 if pi == 0 else 400, {}),
                 ("mc_card", 64 * mult if pi == 0 else 64, {"dc": 2, "ch": 8, "cw": 8}),
                 ("mc_card_big", 4 * mult if pi == 0 else 4, {"dc": 4, "ch": 26, "cw": 26}),
                 ("mc_card_mid", 8 * mult if pi == 0 else 8, {"dc": 3, "ch": 10, "cw": 12}),
@@ -154,6 +155,16 @@ def run(tier, seed):
             viol("mixed:public_key_repeats", "in a mixed workload %d public keys repeated (e.g. %s)" % (len(rep2), rep2[0][0].hex()))
     else:
         mon.inconc("the mixed-order workload produced no values")
+    # ---- 4-byte seeds of the three expansion modules and the PIN grid seed drawn alternately on one thread
+    pooled = []
+    for pi in (0, 1):
+        for t in results[pi].get("seeds_mixed", []):
+            for item in t:
+                pooled.extend(bytes.fromhex(x) for x in item.split("/") if x)
+    if pooled:
+        distinct_check(mon, "seeds_of_all_modules_drawn_alternately", pooled, viol, max_repeats=3)
+    else:
+        mon.inconc("no alternately drawn module seeds observed")
     # ---- simple sources
     for src, width in (("salt", 32), ("integrity_salt", 16), ("pin_salt", 16), ("mc_seed", 8)):
         a, b = flat(0, src), flat(1, src)
